@@ -99,3 +99,52 @@ func init() {
 		t["(time.Duration).String"] = func(ex *Exec, fn *ssa.Function, a []Value) Value { return ex.mkStr("<duration>") }
 	})
 }
+
+// Randomness: an arbitrary value of the documented range.
+func init() {
+	extraIntrinsics = append(extraIntrinsics, func(t map[string]intrinsic) {
+		randN := func(w int) intrinsic {
+			return func(ex *Exec, fn *ssa.Function, a []Value) Value {
+				n := a[0].(*smt.Term)
+				ex.nowSeq++
+				v := ex.input("rand#"+itoa(ex.nowSeq), w)
+				c := ex.ctx
+				if !ex.Branch(c.SLT(c.BV(w, 0), n)) {
+					panic(&goPanic{runtime: "invalid argument to IntN", where: ex.where(), val: IfaceV{}})
+				}
+				ex.assume(c.And(c.SLE(c.BV(w, 0), v), c.SLT(v, n)))
+				return v
+			}
+		}
+		for _, p := range []string{"math/rand/v2.", "math/rand.", "github.com/daeuniverse/outbound/pkg/fastrand."} {
+			t[p+"IntN"] = randN(64)
+			t[p+"Intn"] = randN(64)
+			t[p+"Int64N"] = randN(64)
+			t[p+"Int63n"] = randN(64)
+			t[p+"Int32N"] = randN(32)
+			t[p+"Int31n"] = randN(32)
+			t[p+"Uint32"] = func(ex *Exec, fn *ssa.Function, a []Value) Value {
+				ex.nowSeq++
+				return ex.input("rand#"+itoa(ex.nowSeq), 32)
+			}
+			t[p+"Uint64"] = func(ex *Exec, fn *ssa.Function, a []Value) Value {
+				ex.nowSeq++
+				return ex.input("rand#"+itoa(ex.nowSeq), 64)
+			}
+		}
+	})
+}
+
+func itoa(i int) string {
+	if i == 0 {
+		return "0"
+	}
+	var b [20]byte
+	p := len(b)
+	for i > 0 {
+		p--
+		b[p] = byte('0' + i%10)
+		i /= 10
+	}
+	return string(b[p:])
+}
